@@ -96,7 +96,7 @@ class K8sServer:
         elif ctype == 'application/json-patch+json':
             try:
                 new = canon.apply6902(self.doc, payload)
-            except (canon.PatchTestFailed, canon.PatchInvalid):
+            except (canon.PatchTestFailed, canon.PatchInvalid, IndexError, KeyError, ValueError, TypeError):   # invalid for this document
                 self.log.append(('req', ctype, 422, before, None, copy.deepcopy(payload)))
                 raise self.env.errors.APIUnprocessableEntityError(None, status=422, headers={})
             old_f = self.doc['metadata'].get('finalizers', [])
